@@ -118,7 +118,9 @@ class TagReach:
                     succs = [tgt]
         return succs, tags
 
-    def reach(self, start, tags=None):
+    def reach(self, start, tags=None, avoid=()):
+        """Blocks reachable from `start` on feasible paths that do not enter a block of `avoid`."""
+        avoid = set(avoid)
         init = (start, frozenset((tags or {}).items()))
         seen = {init}
         work = [init]
@@ -126,10 +128,12 @@ class TagReach:
         while work:
             bb, tf = work.pop()
             if len(seen) > self.max_states:
-                return self.cfg.reachable_from(start) | {start}      # give up: plain reachability (still sound)
+                return self.cfg.reachable_from(start, avoid=avoid) | {start}      # give up: plain reachability (still sound)
             succs, t2 = self.step(bb, dict(tf))
             tf2 = frozenset(t2.items())
             for s in succs:
+                if s in avoid:
+                    continue
                 st = (s, tf2)
                 if st not in seen:
                     seen.add(st)
